@@ -9,7 +9,17 @@ ASSUMPTIONS = ['starting documents are canonical encodings of well-formed values
 RULE = 'random operation sequences (length <= 12 quick / 40 thorough) over a register file of documents; arguments are chosen from the current documents (real keys, real indices, sub-paths); at every step the implementation output is compared with the model and decoded by an independent strict decoder; non-trivial = a step that changed the document'
 
 
-def pick_op(ctx, regs):
+FIXED_FIRST_STEPS = [('R;I(x0)', 'first'), ('R;B', 'all'), ('R;I(l0)', 'all'), ('R;I(Sx0~l0)', 'first')]
+
+
+def pick_op(ctx, regs, rnd=None):
+    # deterministic opening for chains that start from a root array with exactly one scalar element: the first rounds select that
+    # element in the single-value forms (a seeded fast path of the writer returned the array instead; the random choice of
+    # register and operation reached it by luck only)
+    if rnd is not None and rnd < len(FIXED_FIRST_STEPS):
+        b0, v0 = regs[0]
+        if v0[0] == 'a' and len(v0[1]) == 1 and v0[1][0][0] not in 'ao':
+            return 'select %s %s %s' % (gen.hexarg(b0), FIXED_FIRST_STEPS[rnd][0], FIXED_FIRST_STEPS[rnd][1])
     """regs: list of (bytes, value). returns case line (op args) using register contents"""
     r = ctx.rng
     b, v = r.choice(regs)
@@ -130,7 +140,7 @@ def judge(ctx):
         lines = []
         pres, texts = {}, {}
         for k, regs in enumerate(chains):
-            op = pick_op(ctx, regs)
+            op = pick_op(ctx, regs, rnd)
             # a chain collects its results in ONE buffer as often as in fresh ones: the step then appends to a buffer that holds
             # the previous result (the theorem is run_bp: any output prefix), and what it appends must be the same document
             name = op.split(' ', 1)[0]
